@@ -13,7 +13,10 @@ META = {
         "Go semantics assumed by the model: close(ch) enables every receiver of ch and a closed channel stays ready; make returns a fresh channel; sync.Mutex excludes; a select with a ready case does not block; sequentially consistent interleaving (the unsynchronised read of q.didPull is given SC semantics in the model, the race itself is reported by the -race leg)",
         "Go harness harness/cmd/queue: controller, hook parking, quiescence detection by stop-the-world goroutine dump (runtime.Stack: '[select]' with top frame inside clientSegmentQueue), property oracle, race-report parser; lib/vlib.py",
         "sync-skeleton check in ties/C20.py: client_segment_queue.go (decides which model variant, library or fixed, the cases are evaluated with) and the producer program of client_stream_downloader.go (runTraditional's loop 'fillSegmentQueue; waitUntilSizeIsBelow(ctx, 1); downloadPlaylist' and fillSegmentQueue's pushes = Model/Queue.v trad); unknown shapes fail the run",
-        "end-to-end leg (harness/cmd/queue/e2e.go): real gohlslib.Client over an in-memory RoundTripper, MPEG-TS and fMP4 (also fMP4 media segments of 2-4 moof+mdat parts), VOD / live / live-ending-with-a-burst, slow consumer (holds one sample per segment - the first, or the first of the last part - until the downloader is throttled AND a stop-the-world goroutine dump shows the whole client at rest) and fast consumer; also flags an end of stream reported before every sample of the downloaded segments was delivered; oracle 'downloaded - fully processed <= 2 at every segment request', which relies on the stream processors returning from processSegment only after every sample of the segment went through the data callback",
+        "end-to-end leg (harness/cmd/queue/e2e.go): real gohlslib.Client over an in-memory RoundTripper, MPEG-TS and fMP4 (also fMP4 media segments of 2-4 moof+mdat parts), VOD / live / live-ending-with-a-burst, slow consumer (holds one sample per segment - the first, or the first of the last part - until the downloader is throttled AND a stop-the-world goroutine dump shows the whole client at rest) and fast consumer; also flags an end of stream reported before every sample of the downloaded segments was delivered; oracle 'downloaded - fully processed <= 2 at every segment request', which relies on the stream processors returning from processSegment only after every sample of the segment went through the data callback; "
+        "and a cancellation scenario ('both return promptly on cancellation', end to end): one MPEG-TS segment of 150 access units 200 ms apart played in real time, "
+        "Close() 100 ms after the third sample - the stream processor is then blocked pushing into the full 100-entry sample queue of a track processor that sleeps between two samples - "
+        "oracle: Wait() reports and no goroutine of the client is left; 'never reports' is decided by three identical all-blocked stop-the-world goroutine dumps, not by a timeout",
     ],
     "assumptions": [
         "one downloader and one processor goroutine per queue (as in clientStreamDownloader / clientStreamProcessor*), cancellation through the shared context",
